@@ -247,3 +247,9 @@ def run(ctx):
     check_zero(ctx, prog)
     check_coords(ctx, prog)
     check_edge(ctx, prog)
+    from rules import r8merge
+    ctx.rule("R8.merge", "merge_requests: merged segments are sorted, disjoint, cover exactly the requested bytes, first request "
+             "wins (bounded)")
+    n = r8merge.check(ctx, ctx.need_fn(prog, "merge_requests"), "R8.merge",
+                      {"off": "*segs[%d].off", "len": "*segs[%d].len", "addr": "*segs[%d].buf_addr", "n": "*nsegs"})
+    ctx.require(n >= 1000, "R8.merge: only %d segment lists evaluated" % n)
